@@ -77,7 +77,12 @@ pub fn gen_behaviour(rng: &mut Rng, p: &Profile, len: usize, id: u64) -> Value {
                 json!({"op": "InvalidateIf", "pk": [], "vm": vm, "vr": rng.below(vm as u64)})
             }
         } else if c < 90 {
-            json!({"op": "Iter"})
+            if has_exp && rng.chance(1, 3) {
+                // an iterator alive across a clock step
+                json!({"op": "IterSplit", "take": rng.below(3), "d": 1 + rng.below(p.max_adv)})
+            } else {
+                json!({"op": "Iter"})
+            }
         } else if c < 96 && has_exp || c < 92 || (has_exp && p.max_adv == 1 && rng.chance(1, 3)) {
             json!({"op": "Advance", "d": 1 + rng.below(p.max_adv)})
         } else {
@@ -87,7 +92,7 @@ pub fn gen_behaviour(rng: &mut Rng, p: &Profile, len: usize, id: u64) -> Value {
             }
             continue;
         };
-        let is_adv = op["op"] == "Advance";
+        let is_adv = op["op"] == "Advance" || op["op"] == "IterSplit";
         ops.push(op);
         if sync_kind && !is_adv && (p.sync_every_op || rng.below(100) < p.p_sync) {
             ops.push(json!({"op": "Sync"}));
